@@ -29,14 +29,19 @@ from common import CORPUS_DIR, Ctx, call
 
 RULE = ("histories of 2..4 writers (XML / protobuf; precisions 1..12 incl. the default 4; facade CommonRoadFileWriter or the "
         "format class itself; constructor arguments explicit or taken from the scenario) over 1..2 generated scenarios (2..4 "
-        "lanelets, one static and one dynamic obstacle with a trajectory, 1..2 planning problems, probe coordinates with 12 "
+        "lanelets with 0..2 lanelet types each (0 = the constructor's empty default), one static and one dynamic obstacle with a "
+        "trajectory, 1..2 planning problems, 40% with goal positions given as lanelets, probe coordinates with 12 "
         "decimals, values that print in e-notation; 12% of the inputs have a planning problem whose creator raises — XML inside "
         "the with-block, protobuf in the message creator), constructions and 1..7 write_to_file / write_scenario_to_file calls "
         "interleaved in random order (the same writer twice, identical writers, other precision / other format in between, "
         "writes after a raising write), the clock scripted per call from 3 dates (10%: real clock), file names: default, a "
         "pool of 3 names that collide, rarely ''; modes ALWAYS / SKIP / ASK (scripted answer); 0..2 files existing beforehand "
         "(30% of them empty); distinct = canonical JSON of the history; non-trivial = a history with >= 2 performed writes")
-ASSUMPTIONS = ["content production (which objects a scenario consists of, which node / message field an object turns into, "
+ASSUMPTIONS = ["the model's Input is a value: that a write call leaves the scenario / planning-problem objects it was given as they "
+               "were is not modelled but checked by the oracle — every reference file is written from arguments rebuilt from the "
+               "specification, and after every history a newly constructed writer per input and format writes the history's own "
+               "objects once more",
+               "content production (which objects a scenario consists of, which node / message field an object turns into, "
                "serialisation) is a parameter of the model; the correspondence sees it through (format, input, date stamp, blocks "
                "under the root, decimals of probe coordinates)",
                "DateLaw (hypothesis of the 'date stamp aside' theorems): the date of a call enters a file only through the XML "
@@ -56,7 +61,8 @@ REQUIRED_BUCKETS = ["fmt/xml", "fmt/pb", "kind/full", "kind/scenario", "same-wri
                     "other-precision-between", "other-format-between", "mode/skip-existing", "mode/ask-existing",
                     "mode/always-existing", "name/default", "name/collision", "pre-existing", "two-inputs", "precision/1",
                     "precision/12", "precision/default", "via/class", "dates-differ", "raising-write",
-                    "write-after-raising-write", "other-writer-raised-before"]
+                    "write-after-raising-write", "other-writer-raised-before", "lanelet-type/empty", "goal/lanelets",
+                    "probe-after-history", "probe-after-other-format"]
 WORKERS = {"quick": 1, "thorough": 8}
 
 METHOD = {"full": "write_to_file", "scenario": "write_scenario_to_file"}
@@ -97,6 +103,10 @@ def gen_input(r, k):
             "steps": r.randint(2, 5), "npp": r.choice([1, 1, 2]), "tags": r.sample(["URBAN", "HIGHWAY", "INTERSECTION", "SIMULATED"], r.randint(1, 3)),
             "location": r.choice([None, [2867714, 48.262333, 11.668775], [r.randint(1, 10 ** 6), r.uniform(-80, 80), r.uniform(-170, 170)]]),
             "args": r.choice(["scenario", "explicit"]),
+            # per lanelet 0..2 lanelet types (0: the constructor default, an empty set — the writers fill in a default)
+            "ltypes": [r.choice([[], [], ["URBAN"], ["URBAN", "MAIN_CARRIAGE_WAY"], ["HIGHWAY"]]) for _ in range(4)],
+            # goal positions given as lanelets (GoalRegion.lanelets_of_goal_position)
+            "goal_lanelets": r.random() < 0.4,
             # a goal time interval with float ends: the node / message creator of the planning problem raises
             # (XML: AssertionError in create_interval_node_int, inside the with-block; protobuf: TypeError)
             "bad_goal_time": r.random() < 0.12}
@@ -123,13 +133,15 @@ def build_input(spec):
     sc = Scenario(spec["dt"], ScenarioID.from_benchmark_id(spec["name"], "2020a"), author=f"author{k}", affiliation=f"aff{k}",
                   source=f"src{k}", tags=tags, location=loc)
     w, seg, n = spec["width"], spec["seg"], spec["nl"]
+    ltypes = spec.get("ltypes", [["URBAN"]] * 4)
     lanelets = []
     for i in range(n):
         x0, x1, xm = i * seg, (i + 1) * seg, (i + 0.5) * seg + v[i % len(v)]
         c = np.array([[x0, 0.0], [xm, v[(i + 1) % len(v)] * 0.01], [x1, 0.0]])
         left, right = c + np.array([0.0, w / 2]), c - np.array([0.0, w / 2])
         lanelets.append(Lanelet(left, c, right, 10 * k + i + 1, predecessor=[10 * k + i] if i > 0 else [],
-                                successor=[10 * k + i + 2] if i < n - 1 else [], lanelet_type={LaneletType.URBAN}))
+                                successor=[10 * k + i + 2] if i < n - 1 else [],
+                                **({"lanelet_type": {LaneletType[t] for t in ltypes[i]}} if ltypes[i] else {})))
     sc.add_objects(LaneletNetwork.create_from_lanelet_list(lanelets))
 
     def init(x, y, vel, t=0):
@@ -149,7 +161,8 @@ def build_input(spec):
         t_lo, t_hi = (5.5, 10.5) if spec.get("bad_goal_time") and j == 0 else (5 + j, 10 + j)
         goal = GoalRegion([KSState(time_step=Interval(t_lo, t_hi), velocity=Interval(v[1], 10.0 + v[2]),
                                    position=Circle(1.5 + v[j], np.array([n * seg - 2.0, v[5]])) if j else
-                                   Rectangle(2.0 + v[2], 2.0, np.array([n * seg - 2.0, v[5]]), v[3] % 1.0 - 0.5))])
+                                   Rectangle(2.0 + v[2], 2.0, np.array([n * seg - 2.0, v[5]]), v[3] % 1.0 - 0.5))],
+                          {0: [10 * k + n - j, 10 * k + n][:2 - j]} if spec.get("goal_lanelets") else None)
         pps.append(PlanningProblem(2000 + 10 * k + j, init(spec["probe_p"] if j == 0 else 1.0 + v[j], 0.0, 3.0 + v[6]), goal))
     pp_set = PlanningProblemSet(pps)
     if spec["args"] == "explicit":
@@ -360,7 +373,8 @@ def do_write(writer, kind, file, mode, answer, date=None):
 
 
 def reference(inputs, key, cache, refdir):
-    """Content (date erased) and read-back of ONE call on a freshly constructed writer: (inp, fmt, prec, kind)."""
+    """Content (date erased) and read-back of ONE call on a freshly constructed writer for the arguments as they were given
+    (scenario, planning problems, ... rebuilt from the specification for every reference): (inp, fmt, prec, kind)."""
     if key in cache:
         return cache[key]
     from commonroad.common.writer.file_writer_interface import precision
@@ -368,7 +382,8 @@ def reference(inputs, key, cache, refdir):
     saved = precision.decimals
     path = os.path.join(refdir, f"ref{len(cache)}")
     try:
-        w = make_writer(inputs[i], fmt, prec, "facade")
+        # the arguments as they were GIVEN: rebuilt from the specification, untouched by any call of the history
+        w = make_writer(build_input(inputs[i]["spec"]), fmt, prec, "facade")
         r = do_write(w, kind, path, "always", None, REF_DATE)
         if r[0] == "ok" and os.path.isfile(path):
             content = erase_date(open(path, "rb").read())
@@ -526,6 +541,36 @@ def run_case(ctx, case, model=True):
 
         # ---- oracle: content is a function of the writer's own inputs
         cache = {}
+        # after the history: one more identically constructed writer per input and format, on the very objects the
+        # history's writers were given — its file must be the file for these arguments (a write must not change them)
+        written = {meta[e[1]]["inp"]: set() for e in events if e[0] == "write" and e[2].get("content") is not None}
+        for e in events:
+            if e[0] == "write" and e[2].get("content") is not None:
+                written[meta[e[1]]["inp"]].add(meta[e[1]]["fmt"])
+        for i in sorted(written):
+            for fmt in ("xml", "pb"):
+                kind = "full"
+                ref = reference(inputs, (i, fmt, 4, kind), cache, refdir)
+                if ref["content"] is None:
+                    kind = "scenario"
+                    ref = reference(inputs, (i, fmt, 4, kind), cache, refdir)
+                    if ref["content"] is None:
+                        continue
+                path = os.path.join(refdir, f"probe_{i}_{fmt}")
+                r = call(make_writer, inputs[i], fmt, 4, "facade")
+                r = do_write(r[1], kind, path, "always", None, REF_DATE) if r[0] == "ok" else r
+                ctx.tag("probe-after-history")
+                if written[i] - {fmt}:
+                    ctx.tag("probe-after-other-format")
+                site = f"C15/{fmt}.{METHOD[kind]}"
+                what = (f"after the history (writes with {sorted(written[i])} writers on input {i}) a newly constructed {fmt} writer on "
+                        f"the same scenario / planning-problem objects")
+                if r[0] == "err":
+                    ctx.fail(f"{site}/identical-writer-after-history-raises-{r[1]}", f"{what} raises {r[2]}", case)
+                elif os.path.isfile(path) and erase_date(open(path, "rb").read()) != ref["content"]:
+                    ctx.fail(f"{site}/identical-writer-after-history-differs",
+                             f"{what} writes {len(erase_date(open(path, 'rb').read()))} bytes, for the arguments as given it is "
+                             f"{len(ref['content'])} bytes: an earlier write changed its arguments", case)
         for e in events:
             if e[0] != "write":
                 continue
@@ -600,6 +645,11 @@ def _read_bytes(content, fmt, refdir):
 
 def classify(ctx, case, meta, events):
     """Coverage buckets of a history."""
+    for sp in case["inputs"]:
+        if any(not t for t in sp.get("ltypes", [["URBAN"]] * 4)[:sp["nl"]]):
+            ctx.tag("lanelet-type/empty")
+        if sp.get("goal_lanelets"):
+            ctx.tag("goal/lanelets")
     if len(case["inputs"]) > 1:
         ctx.tag("two-inputs")
     if case["pre"]:
